@@ -55,6 +55,9 @@ func hostilePayload(r *core.Rng, n int) []byte {
 	return b
 }
 
+// HostilePayload is hostilePayload for other packages.
+func HostilePayload(r *core.Rng, n int) []byte { return hostilePayload(r, n) }
+
 // RandOtherSeg draws a non-metadata segment.
 func RandOtherSeg(r *core.Rng, maxLen int) Seg {
 	n := r.Range(0, 40)
@@ -116,6 +119,9 @@ func BuildJPEG(r *core.Rng, segs []Seg, tail int) JPEG {
 	b.Write([]byte{0xFF, 0xD8})
 	out := JPEG{}
 	for _, s := range segs {
+		if len(s.Payload) > 65533 { // the length field holds len+2 in 16 bits
+			s.Payload = s.Payload[:65533]
+		}
 		s.Off = b.Len()
 		b.Write([]byte{0xFF, s.Marker})
 		var l [2]byte
@@ -191,13 +197,28 @@ func BuildPNG(r *core.Rng, exif []byte, before, after int) PNG {
 		}
 		put(anc[r.Intn(len(anc))], r.Bytes(n))
 	}
+	// eXIf may stand anywhere between IHDR and IEND except between consecutive IDAT chunks
+	idatFirst := r.Chance(1, 3)
+	idat := func() {
+		for k := r.Pick(1, 1, 2, 3); k > 0; k-- {
+			put("IDAT", r.Bytes(r.Range(64, 600)))
+		}
+	}
+	if idatFirst {
+		idat()
+		for i := r.Intn(3); i > 0; i-- {
+			put(anc[r.Intn(len(anc))], r.Bytes(r.Range(0, 60)))
+		}
+	}
 	if exif != nil {
 		put("eXIf", exif)
 	}
 	for i := 0; i < after; i++ {
 		put(anc[r.Intn(len(anc))], r.Bytes(r.Range(0, 60)))
 	}
-	put("IDAT", r.Bytes(r.Range(64, 600)))
+	if !idatFirst {
+		idat()
+	}
 	put("IEND", nil)
 	out.Bytes = b.Bytes()
 	return out
